@@ -1,3 +1,130 @@
-From V Require Import Base.Util C18.Model C18.Spec C18.Proofs C18.Properties.
-Check (C18_placeholder : True).
-Print Assumptions C18_placeholder.
+(** Pinned statements of the C18 property theorems: compiled on every check, so a theorem cannot be
+    weakened silently. *)
+From V Require Import Base.Util C18.Model C18.Spec C18.Corr C18.JsonProofs C18.Proofs C18.Properties.
+Local Open Scope N_scope.
+
+Check (C18_exit_zero_iff_no_diagnostic :
+  forall p,
+  crashed (run p) = false -> (exit_status (run p) = 0 <-> clean p = true)).
+Print Assumptions C18_exit_zero_iff_no_diagnostic.
+
+Check (C18_panic_exits_zero_refuted :
+  exists p, exit_status (run p) = 0 /\ clean p = false /\ outcome_written (run p) <> []).
+Print Assumptions C18_panic_exits_zero_refuted.
+
+Check (C18_exit_zero_iff_no_diagnostic_json :
+  forall p code out err w,
+  run p = Exit code out err w -> pj_format p = Json ->
+  exists t, parse_json out = Some t
+            /\ (code = 0 <-> jfield (s "error") t = None)
+            /\ (code = 0 -> json_diags t = Some [])).
+Print Assumptions C18_exit_zero_iff_no_diagnostic_json.
+
+Check (C18_parse_print_json :
+  forall t, parse_json (print_json t ++ [10]) = Some t).
+Print Assumptions C18_parse_print_json.
+
+Check (C18_json_wellformed :
+  forall p code out err w,
+  run p = Exit code out err w -> pj_format p <> Human ->
+  exists t, out = print_json t ++ [10] /\ parse_json out = Some t).
+Print Assumptions C18_json_wellformed.
+
+Check (C18_check_writes_nothing :
+  forall p,
+  existsb (str_eqb GENERATE) (pj_commands p) = false -> outcome_written (run p) = []).
+Print Assumptions C18_check_writes_nothing.
+
+Check (C18_generate_writes_exactly_listed :
+  forall p,
+  outcome_written (run p) = map snd (st_gen (snd (fst (run_cli_impl p))))).
+Print Assumptions C18_generate_writes_exactly_listed.
+
+Check (C18_json_lists_written :
+  forall p code out err w,
+  run p = Exit code out err w -> pj_format p = Json ->
+  exists t, parse_json out = Some t /\ json_listed t = Some w).
+Print Assumptions C18_json_lists_written.
+
+Check (C18_nothing_written_on_failure :
+  forall p,
+  pre_ok p = false \/ check_impl p <> [] -> outcome_written (run p) = []).
+Print Assumptions C18_nothing_written_on_failure.
+
+Check (C18_check_errors_all_reported :
+  forall p,
+  reaches_check p -> st_check (snd (fst (run_cli_impl p))) = check_impl p).
+Print Assumptions C18_check_errors_all_reported.
+
+Check (C18_json_reports_check_errors :
+  forall p code out err w,
+  run p = Exit code out err w -> pj_format p = Json -> reaches_check p ->
+  exists t, parse_json out = Some t
+            /\ jfield (s "check") t
+               = Some (JObj [ (s "errors", JArr (map (check_error_json (store p)) (check_impl p))) ])).
+Print Assumptions C18_json_reports_check_errors.
+
+Check (C18_all_offending_files_reported :
+  forall p code out err w o e,
+  run p = Exit code out err w -> pj_format p = Json -> reaches_check p ->
+  schema_stage_ok p -> (forall o', In o' (pj_ops p) -> op_ext o' = None /\ op_imp o' = None) ->
+  In o (pj_ops p) -> In e (op_check o) ->
+  exists t l, parse_json out = Some t
+              /\ jfield (s "check") t = Some (JObj [ (s "errors", JArr l) ])
+              /\ In (check_error_json (store p) (false, e)) l).
+Print Assumptions C18_all_offending_files_reported.
+
+Check (C18_schema_errors_all_answered :
+  forall p e,
+  pj_sch_resolve p = None -> In e (pj_sch_check p) -> In (true, e) (check_impl p)).
+Print Assumptions C18_schema_errors_all_answered.
+
+Check (C18_import_errors_all_answered :
+  forall p o e,
+  schema_stage_ok p -> (forall o', In o' (pj_ops p) -> op_ext o' = None) ->
+  In o (pj_ops p) -> op_imp o = Some e -> In (false, e) (check_impl p)).
+Print Assumptions C18_import_errors_all_answered.
+
+Check (C18_check_error_names_file :
+  forall files k e f pos,
+  located_file files e = Some (f, pos) ->
+  check_error_json files (k, e)
+  = JObj [ (s "fileType", JStr (kind_str k));
+           (s "file", JObj [ (s "path", JStr (f_path f)); (s "line", JNum (u32 (p_line pos)));
+                             (s "column", JNum (u32 (p_col pos))) ]);
+           (s "message", JStr (e_msg e)) ]).
+Print Assumptions C18_check_error_names_file.
+
+Check (C18_rdjson_has_command_error :
+  forall p out err w,
+  run p = Exit 1 out err w -> pj_format p = Rdjson ->
+  exists t msg rest, parse_json out = Some t
+                     /\ jfield (s "diagnostics") t = Some (JArr (JObj [(s "message", JStr msg)] :: rest))).
+Print Assumptions C18_rdjson_has_command_error.
+
+Check (C18_message_for_line_located :
+  forall path src p err additional mi,
+  existsb (fun il => N.eqb (fst il) (p_line p))
+          (firstn 5 (skipn (N.to_nat (p_line p - 2)) (enumerate_from 0 (lines src)))) = true ->
+  min_indent (firstn 5 (skipn (N.to_nat (p_line p - 2)) (enumerate_from 0 (lines src)))) = Some mi ->
+  exists rest,
+    message_for_line path src p err additional
+    = (if additional then INDENT else []) ++ path ++ [58] ++ dec (p_line p + 1) ++ [58] ++ dec (p_col p + 1) ++ [10] ++ rest).
+Print Assumptions C18_message_for_line_located.
+
+Check (C18_message_for_line_bare :
+  forall path src p err additional,
+  N.of_nat (length (lines src)) <= p_line p -> message_for_line path src p err additional = err).
+Print Assumptions C18_message_for_line_bare.
+
+Check (C18_parse_error_at_end_of_input_not_located_refuted :
+  forall f, exists out err w,
+    run (eof_witness f) = Exit 1 out err w
+    /\ locations_of (s "/w/q.graphql") out = [] /\ locations_of (s "/w/q.graphql") err = []).
+Print Assumptions C18_parse_error_at_end_of_input_not_located_refuted.
+
+Check (C18_generate_error_not_located_refuted :
+  forall f, exists out err w,
+    run (scalar_witness f) = Exit 1 out err w
+    /\ locations_of (s "/w/schema.graphql") out = [] /\ locations_of (s "/w/schema.graphql") err = []).
+Print Assumptions C18_generate_error_not_located_refuted.
